@@ -1,4 +1,429 @@
+(* C04 - deterministic and categorical skill scores equal their definitions.
+   Statements only; every proof is `exact <lemma of Proofs/Scores*Proofs.v>`.
+
+   Reading guide.  [bias], [nse], [kge], [corr] are the models of the functions
+   of stat/metrics.py (Model/Scores.v); [fwd] stands for trans.forward,
+   [excl] for excludenull.  [RR] is the real-number instance, [N] any instance
+   (binary64 included).  [meanR], [SS] (sum of squared deviations from the
+   mean), [SE] (sum of squared errors), [sdR] (population standard deviation),
+   [pearsonR] (sum of cross products / sqrt (SS x * SS y)), [biasR], [nseR],
+   [kgeR] are the textbook definitions (Proofs/ScoresProofs.v,
+   Proofs/ScoresRealProofs.v).  [EPS] is the constant of metrics.py. *)
 From Coq Require Import ZArith Bool List Reals.
-From Hy Require Import Base.Num Gen.Consts Gen.ConstsC04 Model.Scores Proofs.ScoresProofs.
-Theorem C04_placeholder : True. Proof. exact placeholder_c04. Qed.
-Print Assumptions C04_placeholder.
+From Hy Require Import Base.Num Gen.Consts Gen.ConstsC04 Model.Scores
+  Proofs.ScoresProofs Proofs.ScoresRealProofs Proofs.ScoresCatProofs Proofs.ScoresMissingProofs
+  Proofs.ScoresSummaryProofs.
+Import ListNotations.
+Open Scope R_scope.
+
+(* ================================================================== *)
+(* A. the glue: transform both series first, optionally drop incomplete *)
+(*    pairs, then the closed form.  Any arithmetic instance.            *)
+
+Theorem C04_bias_transform_first : forall {T} (N : NumOps T) eps nln fwd excl ty obs sim,
+  bias N eps nln fwd excl ty obs sim =
+  bias N eps nln idT excl ty (map fwd obs) (map fwd sim).
+Proof. exact @bias_transform_first. Qed.
+Print Assumptions C04_bias_transform_first.
+
+Theorem C04_nse_transform_first : forall {T} (N : NumOps T) fwd excl obs sim,
+  nse N fwd excl obs sim = nse N idT excl (map fwd obs) (map fwd sim).
+Proof. exact @nse_transform_first. Qed.
+Print Assumptions C04_nse_transform_first.
+
+Theorem C04_kge_transform_first : forall {T} (N : NumOps T) eps fwd excl obs sim,
+  kge N eps fwd excl obs sim = kge N eps idT excl (map fwd obs) (map fwd sim).
+Proof. exact @kge_transform_first. Qed.
+Print Assumptions C04_kge_transform_first.
+
+(* corr selects its rows on the raw data: the law holds for a transform that
+   keeps missing values missing and creates no new ones *)
+Theorem C04_corr_transform_first : forall {T} (N : NumOps T) eps fwd excl st ty obs ens,
+  (forall x, nisnan N (fwd x) = nisnan N x) ->
+  corr N eps fwd excl st ty obs ens =
+  corr N eps idT excl st ty (map fwd obs) (map (map fwd) ens).
+Proof. exact @corr_transform_first. Qed.
+Print Assumptions C04_corr_transform_first.
+
+(* excludenull: the score is that of the series with the incomplete pairs removed;
+   [with_excl] is the wrapper shared by bias, nse, kge and corr *)
+Theorem C04_excludenull_is_pair_removal : forall {T} (N : NumOps T) core o s o' s',
+  length o = length s -> nonull N o s = Some (o', s') ->
+  with_excl N true core o s = with_excl N false core o' s'.
+Proof. exact @excl_is_pair_removal. Qed.
+Print Assumptions C04_excludenull_is_pair_removal.
+
+(* ... where the kept pairs are exactly those with both members present, in order *)
+Theorem C04_excludenull_keeps_complete_pairs : forall {T} (N : NumOps T) o s o' s',
+  nonull N o s = Some (o', s') ->
+  combine o' s' = filter (complete N) (combine o s) /\ length o' = length s' /\ o' <> [].
+Proof. exact @nonull_spec. Qed.
+Print Assumptions C04_excludenull_keeps_complete_pairs.
+
+Theorem C04_excludenull_nothing_left : forall {T} (N : NumOps T) core o s,
+  length o = length s -> filter (complete N) (combine o s) = [] ->
+  with_excl N true core o s = SErr.
+Proof. exact @api_excludenull_nothing_left. Qed.
+Print Assumptions C04_excludenull_nothing_left.
+
+Theorem C04_excludenull_idle_on_complete_data : forall {T} (N : NumOps T) core o s,
+  length o = length s -> o <> [] ->
+  forallb (fun x => negb (nisnan N x)) o = true ->
+  forallb (fun x => negb (nisnan N x)) s = true ->
+  with_excl N true core o s = with_excl N false core o s.
+Proof. exact @excl_clean. Qed.
+Print Assumptions C04_excludenull_idle_on_complete_data.
+
+Theorem C04_shape_error : forall {T} (N : NumOps T) excl core o s,
+  length o <> length s -> with_excl N excl core o s = SErr.
+Proof. exact @excl_shape_error. Qed.
+Print Assumptions C04_shape_error.
+
+(* non-vacuity: a series with a missing value in each member *)
+Example C04_excludenull_nonvacuous :
+  nonull RN [Some 1; None; Some 3; Some 4] [Some 2; Some 5; None; Some 6]
+  = Some ([Some 1; Some 4], [Some 2; Some 6]).
+Proof. exact api_excludenull_nonvacuous. Qed.
+Print Assumptions C04_excludenull_nonvacuous.
+
+(* ================================================================== *)
+(* B. numpy's reductions compute the textbook quantities (every length) *)
+
+(* numpy's pairwise summation is the sum (every length); mean, variance, standard deviation *)
+Theorem C04_numpy_reductions :
+  (forall l, np_sum RR l = sumR l) /\
+  (forall l,
+  mean RR l = sumR l / lenR l /\
+  var RR l = sumR (map (fun x => (x - meanR l) * (x - meanR l)) l) / lenR l /\
+  std RR l = sqrt (SS l / lenR l)).
+Proof. exact sum_numpy_reductions. Qed.
+Print Assumptions C04_numpy_reductions.
+
+(* np.corrcoef(x, y)[0, 1] is the textbook coefficient; it lies in [-1, 1] *)
+Theorem C04_pearson_definition : forall x y,
+  length x = length y -> 0 < SS x -> 0 < SS y ->
+  pearson RR x y = SXY x y / sqrt (SS x * SS y) /\ -1 <= pearson RR x y <= 1.
+Proof. exact api_pearson_definition. Qed.
+Print Assumptions C04_pearson_definition.
+
+(* ================================================================== *)
+(* C. the scores equal their definitions on the transformed series      *)
+
+(* bias: the three definitions on the transformed series; NaN when the observed mean is
+   below EPS, or (log) when a mean is not above EPS *)
+Theorem C04_bias_definition :
+  (forall fwd excl ty obs sim,
+  length obs = length sim -> obs <> [] ->
+  bias_defined ty (map fwd obs) (map fwd sim) ->
+  bias RR EPS ln fwd excl ty obs sim =
+  SVal (let o := map fwd obs in let s := map fwd sim in
+        match ty with
+        | BStd => (meanR s - meanR o) / meanR o
+        | BNorm => (meanR s - meanR o) / (meanR s + meanR o)
+        | BLog => ln (meanR s) - ln (meanR o)
+        end)) /\
+  (forall ty o s,
+  (Rabs (meanR o) < EPS -> bias_core RR EPS ln ty o s = SNan) /\
+  (EPS <= Rabs (meanR o) -> meanR s <= EPS \/ meanR o <= EPS ->
+   bias_core RR EPS ln BLog o s = SNan)).
+Proof. exact sum_bias_definition. Qed.
+Print Assumptions C04_bias_definition.
+
+(* non-vacuity: obs = [1; 2; 4], sim = [2; 2; 5] meet every hypothesis used above
+   (also as their own simulation, and scaled by 2) *)
+Example C04_continuous_nonvacuous :
+  (forall ty, bias_defined ty ex_obs ex_sim) /\
+  (kge_defined ex_obs ex_sim) /\
+  ((forall ty, bias_defined ty ex_obs ex_obs) /\ 0 < SS ex_obs /\ kge_defined ex_obs ex_obs) /\
+  (kge_defined (scale 2 ex_obs) (scale 2 ex_sim) /\ forall ty, bias_defined ty (scale 2 ex_obs) (scale 2 ex_sim)).
+Proof. exact sum_continuous_nonvacuous. Qed.
+Print Assumptions C04_continuous_nonvacuous.
+
+Theorem C04_nse_definition : forall fwd excl obs sim,
+  length obs = length sim -> obs <> [] ->
+  nse RR fwd excl obs sim =
+  SVal (1 - SE (map fwd obs) (map fwd sim) / SS (map fwd obs)).
+Proof. exact nse_R. Qed.
+Print Assumptions C04_nse_definition.
+
+(* kge: definition; NaN guards *)
+Theorem C04_kge_definition :
+  (forall fwd excl obs sim,
+  length obs = length sim -> obs <> [] ->
+  kge_defined (map fwd obs) (map fwd sim) ->
+  kge RR EPS fwd excl obs sim =
+  SVal (let o := map fwd obs in let s := map fwd sim in
+        1 - sqrt ((1 - meanR s / meanR o) * (1 - meanR s / meanR o)
+                  + (1 - sdR s / sdR o) * (1 - sdR s / sdR o)
+                  + (1 - pearsonR o s) * (1 - pearsonR o s)))) /\
+  (forall o s,
+  Rabs (meanR o) < EPS \/ sdR o < EPS \/ sdR s <= EPS -> kge_core RR EPS o s = SNan).
+Proof. exact sum_kge_definition. Qed.
+Print Assumptions C04_kge_definition.
+
+(* corr, Pearson type: one-member ensemble (mean or median statistic); mean statistic on
+   ensembles of any size (no empty row); NaN guard *)
+Theorem C04_corr_definition :
+  (forall fwd excl st obs sim,
+  length obs = length sim -> obs <> [] ->
+  EPS <= sdR (map fwd obs) -> 0 < SS (map fwd sim) ->
+  corr RR EPS fwd excl st CPearson obs (map (fun v => [v]) sim) =
+  SVal (pearsonR (map fwd obs) (map fwd sim))) /\
+  (forall fwd excl obs ens,
+  length obs = length ens -> obs <> [] -> Forall (fun r => r <> []) ens ->
+  EPS <= sdR (map fwd obs) -> 0 < SS (map (fun r => meanR (map fwd r)) ens) ->
+  corr RR EPS fwd excl CMean CPearson obs ens =
+  SVal (pearsonR (map fwd obs) (map (fun r => meanR (map fwd r)) ens))) /\
+  (forall ty o s, sdR o < EPS -> corr_core RR EPS ty o s = SNan).
+Proof. exact sum_corr_definition. Qed.
+Print Assumptions C04_corr_definition.
+
+(* ================================================================== *)
+(* D. consequences                                                      *)
+
+(* perfect simulation: bias 0, NSE 1, KGE 1, correlation 1 *)
+Theorem C04_perfect_simulation :
+  (forall fwd excl ty obs,
+  obs <> [] -> bias_defined ty (map fwd obs) (map fwd obs) ->
+  bias RR EPS ln fwd excl ty obs obs = SVal 0) /\
+  (forall fwd excl obs,
+  0 < SS (map fwd obs) -> nse RR fwd excl obs obs = SVal 1) /\
+  (forall fwd excl obs,
+  kge_defined (map fwd obs) (map fwd obs) -> kge RR EPS fwd excl obs obs = SVal 1) /\
+  (forall fwd excl st obs,
+  EPS <= sdR (map fwd obs) ->
+  corr RR EPS fwd excl st CPearson obs (map (fun v => [v]) obs) = SVal 1).
+Proof. exact sum_perfect_simulation. Qed.
+Print Assumptions C04_perfect_simulation.
+
+(* simulating the observed mean (of the transformed series) scores NSE 0 *)
+Theorem C04_nse_mean_simulation : forall fwd excl obs sim,
+  0 < SS (map fwd obs) ->
+  map fwd sim = map (fun _ => meanR (map fwd obs)) (map fwd obs) ->
+  nse RR fwd excl obs sim = SVal 0.
+Proof. exact api_nse_mean_simulation. Qed.
+Print Assumptions C04_nse_mean_simulation.
+
+(* NSE and KGE never exceed 1 *)
+Theorem C04_upper_bounds :
+  (forall fwd excl obs sim,
+  length obs = length sim -> 0 < SS (map fwd obs) ->
+  exists v, nse RR fwd excl obs sim = SVal v /\ v <= 1) /\
+  (forall fwd excl obs sim,
+  length obs = length sim -> obs <> [] -> kge_defined (map fwd obs) (map fwd sim) ->
+  exists v, kge RR EPS fwd excl obs sim = SVal v /\ v <= 1).
+Proof. exact sum_upper_bounds. Qed.
+Print Assumptions C04_upper_bounds.
+
+(* NSE is invariant under a common affine map (a <> 0) of the transformed series; bias and
+   KGE under a common positive scaling (both sides clear of the guards) *)
+Theorem C04_invariances :
+  (forall a b excl o s,
+  a <> 0 -> length o = length s -> 0 < SS o ->
+  nse RR idT excl (map (fun x => a * x + b) o) (map (fun x => a * x + b) s) =
+  nse RR idT excl o s) /\
+  (forall c excl ty o s,
+  0 < c -> length o = length s -> o <> [] ->
+  bias_defined ty o s -> bias_defined ty (scale c o) (scale c s) ->
+  bias RR EPS ln idT excl ty (scale c o) (scale c s) = bias RR EPS ln idT excl ty o s) /\
+  (forall c excl o s,
+  0 < c -> length o = length s ->
+  kge_defined o s -> kge_defined (scale c o) (scale c s) ->
+  kge RR EPS idT excl (scale c o) (scale c s) = kge RR EPS idT excl o s).
+Proof. exact sum_invariances. Qed.
+Print Assumptions C04_invariances.
+
+(* ================================================================== *)
+(* D'. series with missing values ([RN]: option R, None plays NaN),     *)
+(*     excludenull = True: the score is the real-number score of the    *)
+(*     complete pairs of the transformed series                         *)
+
+(* on complete data the [RN] computation is the [RR] computation, score by score *)
+Theorem C04_complete_data_are_reals : forall eps ty o s,
+  bias_core RN (Some eps) lnN ty (someL o) (someL s) = lift (bias_core RR eps ln ty o s) /\
+  nse_core RN (someL o) (someL s) = lift (nse_core RR o s) /\
+  kge_core RN (Some eps) (someL o) (someL s) = lift (kge_core RR eps o s) /\
+  corr_core RN (Some eps) CPearson (someL o) (someL s) = lift (corr_core RR eps CPearson o s).
+Proof.
+  intros eps ty o s.
+  exact (conj (bias_core_RN eps ty o s) (conj (nse_core_RN o s)
+        (conj (kge_core_RN eps o s) (corr_core_pearson_RN eps o s)))).
+Qed.
+Print Assumptions C04_complete_data_are_reals.
+
+Theorem C04_complete_pairs_are_numbers : forall o s o' s',
+  nonull RN o s = Some (o', s') -> o' = someL (unsome o') /\ s' = someL (unsome s').
+Proof. exact nonull_RN_reals. Qed.
+Print Assumptions C04_complete_pairs_are_numbers.
+
+(* excludenull = True on series with missing values: the real-number score of the complete pairs *)
+Theorem C04_scores_with_missing :
+  (forall fwd ty obs sim o' s',
+  length obs = length sim ->
+  nonull RN (map fwd obs) (map fwd sim) = Some (o', s') ->
+  bias_defined ty (unsome o') (unsome s') ->
+  bias RN (Some EPS) lnN fwd true ty obs sim = SVal (Some (biasR ty (unsome o') (unsome s')))) /\
+  (forall fwd obs sim o' s',
+  length obs = length sim ->
+  nonull RN (map fwd obs) (map fwd sim) = Some (o', s') ->
+  nse RN fwd true obs sim = SVal (Some (1 - SE (unsome o') (unsome s') / SS (unsome o')))) /\
+  (forall fwd obs sim o' s',
+  length obs = length sim ->
+  nonull RN (map fwd obs) (map fwd sim) = Some (o', s') ->
+  kge_defined (unsome o') (unsome s') ->
+  kge RN (Some EPS) fwd true obs sim = SVal (Some (kgeR (unsome o') (unsome s')))).
+Proof. exact sum_scores_with_missing. Qed.
+Print Assumptions C04_scores_with_missing.
+
+(* non-vacuity: a missing value in each member; the complete pairs are the example above *)
+Example C04_missing_nonvacuous :
+  nonull RN (map idT [Some 1; None; Some 2; Some 7; Some 4])
+            (map idT [Some 2; Some 9; Some 2; None; Some 5]) = Some (someL ex_obs, someL ex_sim) /\
+  unsome (someL ex_obs) = ex_obs /\ unsome (someL ex_sim) = ex_sim.
+Proof. exact (conj ex_missing_nonull ex_missing_unsome). Qed.
+Print Assumptions C04_missing_nonvacuous.
+
+(* ================================================================== *)
+(* E. confusion matrix                                                  *)
+Open Scope Z_scope.
+
+(* categories in 0..n-1, n given or inferred (largest category + 1): the table
+   is n x n with labels 0..n-1 *)
+Theorem C04_confusion_table : forall ncat obs sim n,
+  length obs = length sim ->
+  (ncat = Some n \/ (ncat = None /\ n = ncat_fix (sort_u obs) (sort_u sim))) ->
+  (forall x, In x obs \/ In x sim -> 0 <= x < n) ->
+  confusion ncat obs sim =
+  Some (mkCT (zrange n) (zrange n) (table (zrange n) (zrange n) obs sim)).
+Proof. exact confusion_spec. Qed.
+Print Assumptions C04_confusion_table.
+
+(* inferred size: every series of non-negative categories is covered *)
+Theorem C04_confusion_inferred : forall obs sim,
+  length obs = length sim ->
+  (forall x, In x obs \/ In x sim -> 0 <= x) ->
+  let n := ncat_fix (sort_u obs) (sort_u sim) in
+  confusion None obs sim =
+  Some (mkCT (zrange n) (zrange n) (table (zrange n) (zrange n) obs sim)).
+Proof. exact confusion_inferred. Qed.
+Print Assumptions C04_confusion_inferred.
+
+(* cell (i, j) is the number of positions with (obs, sim) = (i, j); n rows of n cells *)
+Theorem C04_confusion_cells :
+  (forall n obs sim i j,
+  0 <= i < n -> 0 <= j < n ->
+  nth (Z.to_nat j) (nth (Z.to_nat i) (table (zrange n) (zrange n) obs sim) []) 0 =
+  Z.of_nat (length (filter (fun p => (fst p =? i) && (snd p =? j)) (combine obs sim)))) /\
+  (forall n obs sim, 0 <= n ->
+  length (table (zrange n) (zrange n) obs sim) = Z.to_nat n /\
+  Forall (fun r => length r = Z.to_nat n) (table (zrange n) (zrange n) obs sim)).
+Proof. exact sum_confusion_cells. Qed.
+Print Assumptions C04_confusion_cells.
+
+(* every pair is counted exactly once: the cells sum to the length *)
+Theorem C04_confusion_total : forall ncat obs sim n t,
+  length obs = length sim ->
+  (ncat = Some n \/ (ncat = None /\ n = ncat_fix (sort_u obs) (sort_u sim))) ->
+  (forall x, In x obs \/ In x sim -> 0 <= x < n) ->
+  confusion ncat obs sim = Some t -> table_total t = Z.of_nat (length obs).
+Proof. exact confusion_total. Qed.
+Print Assumptions C04_confusion_total.
+
+Example C04_confusion_nonvacuous :
+  confusion None [0; 2; 2; 0] [0; 0; 0; 0] =
+  Some (mkCT [0; 1; 2] [0; 1; 2] [[2; 0; 0]; [0; 0; 0]; [2; 0; 0]]).
+Proof. exact confusion_fixed_example. Qed.
+Print Assumptions C04_confusion_nonvacuous.
+
+Theorem C04_confusion_shape_error : forall infer ncat obs sim,
+  length obs <> length sim -> confusion_gen infer ncat obs sim = None.
+Proof. exact confusion_shape_error. Qed.
+Print Assumptions C04_confusion_shape_error.
+
+(* the pinned inference (number of distinct categories) loses pairs *)
+Theorem C04_confusion_old_refuted :
+  exists obs sim t, length obs = length sim /\ (forall x, In x obs \/ In x sim -> 0 <= x) /\
+    confusion_old None obs sim = Some t /\ table_total t <> Z.of_nat (length obs).
+Proof. exact confusion_old_refuted. Qed.
+Print Assumptions C04_confusion_old_refuted.
+
+Close Scope Z_scope.
+
+(* ================================================================== *)
+(* F. binary scores: every table with four positive counts              *)
+
+Theorem C04_binary_scores : forall tn fp fn tp,
+  (0 < tn)%Z -> (0 < fp)%Z -> (0 < fn)%Z -> (0 < tp)%Z ->
+  let a := IZR tp in let b := IZR fp in let c := IZR fn in let d := IZR tn in
+  exists s, binary RR ln tn fp fn tp = BOk s /\
+    b_hit s = a / (a + c) /\ b_fa s = b / (d + b) /\ b_prec s = a / (a + b) /\
+    b_acc s = (a + d) / (a + c + (d + b)) /\ b_bias s = (a + b) / (a + c) /\
+    b_f1 s = (2 * a) / (2 * a + b + c) /\
+    b_f1 s = 2 * (b_hit s * b_prec s) / (b_hit s + b_prec s) /\
+    b_mcc s = (a * d - b * c) / sqrt ((a + b) * (a + c) * (d + b) * (d + c)) /\
+    b_lor s = ln ((a * d) / (b * c)) /\
+    b_orss s = (a * d - b * c) / (a * d + b * c).
+Proof. exact binary_fields. Qed.
+Print Assumptions C04_binary_scores.
+
+Theorem C04_binary_ranges : forall tn fp fn tp,
+  (0 < tn)%Z -> (0 < fp)%Z -> (0 < fn)%Z -> (0 < tp)%Z ->
+  exists s, binary RR ln tn fp fn tp = BOk s /\
+    0 < b_hit s < 1 /\ 0 < b_fa s < 1 /\ 0 < b_prec s < 1 /\ 0 < b_acc s < 1 /\
+    0 < b_f1 s < 1 /\ b_mcc s * b_mcc s <= 1 /\ -1 < b_orss s < 1.
+Proof. exact binary_ranges. Qed.
+Print Assumptions C04_binary_ranges.
+
+(* log odds ratio and odds-ratio skill score have the sign of TP*TN - FP*FN *)
+Theorem C04_binary_signs : forall tn fp fn tp,
+  (0 < tn)%Z -> (0 < fp)%Z -> (0 < fn)%Z -> (0 < tp)%Z ->
+  exists s, binary RR ln tn fp fn tp = BOk s /\
+    (0 < b_lor s <-> (fp * fn < tp * tn)%Z) /\ (0 < b_orss s <-> (fp * fn < tp * tn)%Z) /\
+    (b_lor s = 0 <-> (fp * fn = tp * tn)%Z) /\ (b_orss s = 0 <-> (fp * fn = tp * tn)%Z).
+Proof. exact binary_signs. Qed.
+Print Assumptions C04_binary_signs.
+
+Example C04_binary_nonvacuous : (0 < 50 /\ 0 < 5 /\ 0 < 4 /\ 0 < 30)%Z.
+Proof. exact bin_example_pos. Qed.
+Print Assumptions C04_binary_nonvacuous.
+
+(* the pinned guard `theta > -1 and theta < 1` rejects every odds ratio >= 1 ... *)
+Theorem C04_orss_old_guard_rejects : forall tn fp fn tp,
+  (0 < tn)%Z -> (0 < fp)%Z -> (0 < fn)%Z -> (0 < tp)%Z ->
+  IZR fp * IZR fn <= IZR tp * IZR tn ->
+  guard_ok RR ORSS_GUARD_OLD (hit_rate RR fn tp) (false_alarm RR tn fp)
+           (odds_theta RR (hit_rate RR fn tp) (false_alarm RR tn fp)) = false.
+Proof. exact orss_guard_old_rejects. Qed.
+Print Assumptions C04_orss_old_guard_rejects.
+
+(* ... e.g. [[50, 5], [4, 30]] on the executable binary64 instance of the pinned code *)
+Theorem C04_orss_old_refuted :
+  match binary_old F64 f_ln 50 5 4 30 with
+  | BOk s => PrimFloat.is_nan (b_orss s) = true
+  | BErr => False
+  end.
+Proof. exact orss_old_refuted_f64. Qed.
+Print Assumptions C04_orss_old_refuted.
+
+(* the pinned int64 product of the four margins overflows: binary raises *)
+Theorem C04_mcc_old_refuted :
+  exists tn fp fn tp, (0 < tn /\ 0 < fp /\ 0 < fn /\ 0 < tp)%Z /\
+    forall T (N : NumOps T) (nln : T -> T), binary_old N nln tn fp fn tp = BErr.
+Proof. exact mcc_old_refuted. Qed.
+Print Assumptions C04_mcc_old_refuted.
+
+(* ================================================================== *)
+(* G. ties to the source text (regenerated into Gen/ConstsC04.v)        *)
+(* the guards of LOR and ORSS used by [binary] above are the extracted  *)
+(* ones; the option names and output names the model covers exist       *)
+From Coq Require Import String.
+Open Scope string_scope.
+Theorem C04_source_ties :
+  forallb (has BIAS_TYPES) ["standard"; "normalised"; "log"] = true /\
+  forallb (has CORR_STATS) ["mean"; "median"] = true /\
+  forallb (has CORR_TYPES) ["Pearson"; "Spearman"] = true /\
+  forallb (has BINARY_KEYS) ["bias"; "hitrate"; "precision"; "falsealarm"; "accuracy"; "F1";
+                             "MCC"; "LOR"; "ORSS"; "EDS"] = true /\
+  BINARY_SHAPE = [2%Z; 2%Z].
+Proof. exact source_ties. Qed.
+Print Assumptions C04_source_ties.
